@@ -192,6 +192,11 @@ class RandRecorder:
         np.random.rand = self._orig
 
 
+def gro_atoms_of(mol):
+    """the AtomGro objects of a molecule, in order"""
+    return [a for res in mol.residues for a in res]
+
+
 def anchors_of(n, bonds):
     nb = neighbours(n, bonds)
     if n <= 2:
@@ -275,6 +280,10 @@ def run_impl(ctx, case):
     m = len(case["tgt"])
     tgt = make_molecule(ctx.scratch, "REF", [f"A{k}" for k in range(m)], case["tgt"],
                         [(k, k + 1) for k in range(m - 1)])
+    if case.get("tgt_dtype"):
+        ctx.count("target-dtype:" + case["tgt_dtype"])
+        for a, q in zip(gro_atoms_of(tgt), case["tgt"]):
+            a.position = np.array(q, dtype=case["tgt_dtype"])
     ref_before = ref.atoms_positions.copy()
     tgt_before = tgt.atoms_positions.copy()
     np.random.seed(case.get("seed", 0))
